@@ -106,6 +106,12 @@ func (fc *FnCtx) baseConst(st *State, comp, sort string) string {
 // closure: forall allocated r: the content of comp at r is well typed with respect to the frontier.
 func (fc *FnCtx) closure(term, comp, frontier string) string {
 	vc := fc.vc
+	if comp == ghTeeSrc || comp == ghTeeDst {
+		// ghost tee structure: sources and destinations of allocated readers are allocated objects
+		vc.nfresh++
+		r := fmt.Sprintf("q!cl!%d", vc.nfresh)
+		return "(forall ((" + r + " Int)) (! (=> (and (<= 0 " + r + ") (<= " + r + " " + frontier + ")) (and (<= 0 (select " + term + " " + r + ")) (<= (select " + term + " " + r + ") " + frontier + "))) :pattern ((select " + term + " " + r + ")) :qid cl.tee))"
+	}
 	et := compElemType(vc, comp)
 	if et == nil {
 		return "true"
